@@ -164,7 +164,7 @@ func (g *gen) themedDecl(theme string, pl *pools, modern float64) Decl {
 			return d
 		}
 		if p == "--x" {
-			return g.decl(p, []string{g.pick([]string{"cust1", "cust2", "red", "l0", "varx"})}, modern, imp)
+			return g.decl(p, []string{g.pick([]string{"cust1", "cust2", "cust3", "cust4", "cust5", "varx"})}, modern, imp)
 		}
 		return g.decl(p, []string{g.pick(pl.colors)}, modern, imp)
 	default: // misc: display, width, height, color
